@@ -1,12 +1,15 @@
 #!/bin/bash
-# run checks against a seeded change: apply to /repo, run, undo straight afterwards
+# run checks against a seeded change: apply to /repo, run the named checks in parallel, undo straight afterwards
 # usage: tools/seeded_run.sh <seed-id> <property> [<property>...]
 id=$1; shift
 cd /verif
 git -C /repo apply /verif/seeded/$id/patch.diff || { echo "patch does not apply"; exit 2; }
+trap 'git -C /repo checkout -- .; git -C /repo status --short | head -3' EXIT
+mkdir -p /tmp/seedrun
 for p in "$@"; do
-  out=$(./check $p 2>&1); rc=$?
-  echo "[$id] $p rc=$rc $(echo "$out" | grep -c VIOLATION) violation lines"; echo "$out" | grep -E "VIOLATION|INTERNAL|OK property" | head -3
+  ( ./check $p > /tmp/seedrun/$id.$p.out 2>&1; echo $? > /tmp/seedrun/$id.$p.rc ) &
 done
-git -C /repo checkout -- .
-git -C /repo status --short | head -3
+wait
+for p in "$@"; do
+  echo "[$id] $p rc=$(cat /tmp/seedrun/$id.$p.rc) $(grep -c VIOLATION /tmp/seedrun/$id.$p.out) violation lines"; grep -E "VIOLATION|INTERNAL|OK property" /tmp/seedrun/$id.$p.out | head -2 | cut -c1-220
+done
